@@ -671,19 +671,40 @@ func (h H) handlersDrainPayload(rule string) {
 	fn := h.fn(appendFn)
 	fi := h.P.Info(fn)
 	n := 0
+	drained := core.MkAtom("appendReq.numEntries", "==", "0")
 	for k, r := range core.Returns(fn) {
-		v := h.retVal(r, 0).String()
-		site := fmt.Sprintf("(*Raft).onAppendEntriesRequest return#%d", k+1)
-		if v == readErr || v == unexp {
-			continue
+		v0 := r.Results[0]
+		if u, isLoad := v0.(*ssa.UnOp); isLoad { // defer-spilled result
+			if a, isCell := u.X.(*ssa.Alloc); isCell {
+				for j := len(r.Block().Instrs) - 1; j >= 0; j-- {
+					if st, isSt := r.Block().Instrs[j].(*ssa.Store); isSt && st.Addr == ssa.Value(a) {
+						v0 = st.Val
+						break
+					}
+				}
+			}
 		}
-		n++
-		if strings.HasPrefix(v, "(*Raft).onAppendEntriesRequest$") && strings.HasSuffix(v, "#0") {
-			h.C.Check(rule, site, true, h.pos(r), "returns through the drain closure")
-			continue
+		// a result merged from several places is judged where it was chosen
+		normal := false
+		for j, lf := range h.leavesAt(v0, r, 0) {
+			v := fi.SymAt(lf.V, lf.At).String()
+			site := fmt.Sprintf("(*Raft).onAppendEntriesRequest return#%d.%d", k+1, j+1)
+			if v == readErr || v == unexp {
+				continue
+			}
+			normal = true
+			if strings.HasPrefix(v, "(*Raft).onAppendEntriesRequest$") && strings.HasSuffix(v, "#0") {
+				h.C.Check(rule, site, true, h.pos(r), "returns through the drain closure")
+				continue
+			}
+			res := fi.MustCross(lf.At, func(a core.Atom) bool {
+				return a.Implies(drained) || (a.L == "appendReq.numEntries" && a.R == "0" && a.Op == "<=") || (a.R == "appendReq.numEntries" && a.L == "0" && a.Op == ">=")
+			})
+			h.C.Check(rule, site, res.OK, h.pos(r), "the handler answers "+v+" while entries announced by the request may still be unread on the connection: the next request on this pipelined stream would be decoded from the middle of them")
 		}
-		res := fi.MustCrossAtom(r, core.MkAtom("appendReq.numEntries", "==", "0"))
-		h.C.Check(rule, site, res.OK, h.pos(r), "the handler answers "+v+" while entries announced by the request may still be unread on the connection: the next request on this pipelined stream would be decoded from the middle of them")
+		if normal {
+			n++
+		}
 	}
 	h.C.Floor(rule+" (normal returns of the append handler)", n, 4)
 	// the drain closure reads until numEntries == 0
